@@ -18,6 +18,7 @@ Lifecycle steps (JSON-able lists) executed by `World.step`:
   ["close", commit]            close(commit=...)
   ["open", mode, how]          how = "name" | "list" (sorted) | "rlist" (reversed) | ["perm", [i,...]] (explicit list order)
   ["openx", mode]              open by name with the OTHER record class (IH5Record <-> IH5MFRecord; both must accept each other's files)
+  ["stubself"]                 IH5MFRecord.create_stub(<the record's own path>, newest committed manifest): must be refused, nothing changes
   ["stub"]                     IH5MFRecord.create_stub(<dir>/stb<N>, newest committed manifest of the record); closed at once
 """
 from __future__ import annotations
@@ -319,6 +320,7 @@ class World:
         self.qi = 0
         self.n_merge = 0
         self.n_stub = 0
+        self.n_stubself = 0
         self.last_dump = None  # last live dump (taken while open)
         self.trace = []  # resolved steps actually executed (data ops made explicit)
 
@@ -339,6 +341,8 @@ class World:
             return self.rec is None
         if k == "stub":
             return self.cls_key == "mf" and self.n_stub < 1
+        if k == "stubself":
+            return self.cls_key == "mf" and self.n_stubself < 1
         if k == "merge":
             return self.rec is not None and self.n_merge < 2
         return self.rec is not None
@@ -425,6 +429,14 @@ class World:
             self.n_stub += 1
             s = IH5MFRecord.create_stub(tgt, mf_path(fs[-1]))
             s.close()
+        elif k == "stubself":
+            # a stub requested at the path where the record itself lives: create_stub has no mode argument and must refuse an occupied path
+            fs = [p for p in self.files() if is_committed(p) and mf_path(p).is_file()]
+            if not fs:
+                raise RuntimeError("no committed manifest")
+            self.n_stubself += 1
+            s = IH5MFRecord.create_stub(self.path, mf_path(fs[-1]))
+            s.close()
         else:
             raise RuntimeError(f"unknown step {st}")
         return ("ok", None)
@@ -439,4 +451,4 @@ class World:
 
 
 OPEN_STEPS_C02 = [["open", "r", "name"], ["open", "r+", "name"], ["open", "a", "name"], ["open", "r", "rlist"], ["open", "r+", "rlist"], ["open", "a", "list"], ["open", "r+", "prefix"]]
-LIVE_STEPS_C02 = [["read"], ["cp"], ["data"], ["discard"], ["commit"], ["merge"], ["mergeself"], ["close", True], ["close", False], ["stub"]]
+LIVE_STEPS_C02 = [["read"], ["cp"], ["data"], ["discard"], ["commit"], ["merge"], ["mergeself"], ["close", True], ["close", False], ["stub"], ["stubself"]]
